@@ -105,6 +105,15 @@ func (f LeveldbDiskStorage) SetTableMeta(tbl *btapb.Table) {
 	}
 }
 
+// DeleteTableMeta removes the persisted metadata of a table, so that GetTables no longer returns it. (The
+// table's data directory is left behind; Create wipes it before the name is used again.)
+func (f LeveldbDiskStorage) DeleteTableMeta(tbl *btapb.Table) {
+	outPath := filepath.Join(f.Root, tbl.Name) + ".table.proto"
+	if err := os.Remove(outPath); err != nil && !os.IsNotExist(err) {
+		f.errLog(err, "os.Remove %q", outPath)
+	}
+}
+
 func (f LeveldbDiskStorage) errLog(err error, format string, args ...interface{}) {
 	if f.ErrLog != nil {
 		f.ErrLog(err, fmt.Sprintf(format, args...))
